@@ -67,7 +67,20 @@ contract(F + "Continuum.remove",
                   cl("Ann(self) == old(Ann(self))", name="Ann"),
                   cl("Us(self)[annotator] == store(old(Us(self))[annotator], unit, False)", name="U[a]"),
                   cl("forall([(b, Real)], implies(b != annotator, Us(self)[b] == old(Us(self))[b]))", name="frame-units"),
-                  cl("RI(self)", name="RI")],
+                  cl("RI(self)", name="RI"),
+                  cl("Kseq(self) == old(Kseq(self)) and Nkeys(self) == old(Nkeys(self)) and Kidx(self) == old(Kidx(self))", "C10", name="annotator-order"),
+                  cl("Cnt(self)[annotator] == old(Cnt(self))[annotator] - 1 and "
+                     "forall([(b, Real)], implies(b != annotator, Cnt(self)[b] == old(Cnt(self))[b]))", "C10", name="counts"),
+                  cl("NumUnits(self) == old(NumUnits(self)) - 1", "C10", name="one-unit-fewer")],
+         lemmas=PSUM_LEMMAS,
+         hooks=[("after", "annotations.remove(unit)", "model_inv wfmap(self)"),
+                ("after", "annotations.remove(unit)", "assert 0 <= Kidx(self)[annotator] and Kidx(self)[annotator] < Nkeys(self) and "
+                                                     "Kseq(self)[Kidx(self)[annotator]] == annotator"),
+                ("after", "annotations.remove(unit)",
+                 "assert forall(i, 0, Nkeys(self), implies(i != Kidx(self)[annotator], Kseq(self)[i] != annotator))"),
+                # the two sums differ at exactly one index
+                ("after", "annotations.remove(unit)",
+                 "use psum_dec(f=lam(k, old(Cnt(self))[Kseq(self)[k]]), g=lam(k, Cnt(self)[Kseq(self)[k]]), i0=Kidx(self)[annotator], k=Nkeys(self))")],
          serves={"C13", "C14", "C10", "C19"})
 
 contract(F + "Continuum.copy_flush",
